@@ -13,20 +13,33 @@ _drivers = []  # one driver process per call-back nesting depth
 _drivers_lock = threading.Lock()
 
 
+import weakref
+
+# Python objects referenced by id in requests/replies (generators and caches of virtual arrays).
+# Weak: an entry lives as long as the layout that mentions it, which spans the request.
+GENS = weakref.WeakValueDictionary()
+CACHES = weakref.WeakValueDictionary()
+
+
+_keepalive = []  # objects first seen inside a call-back: C++ would own them until the request is over
+
+
+def reg_gen(obj):
+    GENS[id(obj)] = obj
+    if _depth() > 0:
+        _keepalive.append(obj)
+    return id(obj)
+
+
+def reg_cache(obj):
+    CACHES[id(obj)] = obj
+    if _depth() > 0:
+        _keepalive.append(obj)
+    return id(obj)
+
+
 class _Ctx(object):
-    """Per top-level request: registry of Python objects referenced by id in the request/reply."""
-
-    def __init__(self):
-        self.gens = {}
-        self.caches = {}
-
-    def reg_gen(self, obj):
-        self.gens[id(obj)] = obj
-        return id(obj)
-
-    def reg_cache(self, obj):
-        self.caches[id(obj)] = obj
-        return id(obj)
+    pass
 
 
 def _depth():
@@ -80,6 +93,8 @@ class request_scope(object):
 def request(body):
     drv = current_driver()
     drv.last_callback_error = None
+    if _depth() == 0 and _keepalive:
+        del _keepalive[:]  # results of the previous top-level request have been rebuilt by now
     try:
         return drv.request(body)
     except RuntimeError as err:
@@ -94,24 +109,23 @@ def request(body):
 
 def _handle_callback(tree):
     # tree = ['cb', kind, ...]; runs while the current driver is blocked -> nested requests use depth+1
-    from pyshim import nodes
+    from pyshim import content as nodes
 
-    c = ctx()
     _state.depth = _depth() + 1
     try:
         kind = tree[1]
         if kind == "gen":
-            gen = c.gens[int(tree[2])]
+            gen = GENS[int(tree[2])]
             out = gen._generate()
             return nodes.tosx(out)
         if kind == "cacheget":
-            cache = c.caches[int(tree[2])]
+            cache = CACHES[int(tree[2])]
             out = cache._get(unhx_str(tree[3]))
             if out is None:
                 return "none"
             return nodes.tosx(out)
         if kind == "cacheset":
-            cache = c.caches[int(tree[2])]
+            cache = CACHES[int(tree[2])]
             cache._set(unhx_str(tree[3]), nodes.fromsx(tree[4]))
             return "none"
         raise DriverProtocolError("unknown call-back " + str(kind))
